@@ -54,8 +54,13 @@ class LotkaVolterraOscillating:
             loc=mean, covariance_matrix=covariance
         )
         self._uniform = BoxUniform(low=-5 * torch.ones(4), high=2 * torch.ones(4))
+        # Mass of each one-dimensional Gaussian factor inside the box [-5, 2].
         self._log_normalizer = -torch.log(
-            torch.erf((2 - mean) / sigma) - torch.erf((-5 - mean) / sigma)
+            0.5
+            * (
+                torch.erf((2 - mean) / (sigma * 2 ** 0.5))
+                - torch.erf((-5 - mean) / (sigma * 2 ** 0.5))
+            )
         ).sum()
 
     def log_prob(self, value):
